@@ -228,6 +228,7 @@ impl Opts {
             unsafe_mutations: self.unsafe_m,
             allow_ext: self.allow_ext,
             allow_buffer: self.allow_buffer,
+            bufsize: None,
         };
         Some((Scenario::solo(cfg, Entropy::Rand(seed)), note))
     }
